@@ -90,7 +90,7 @@ type roomStats struct {
 	joinsOK, joinsRefused, refusedAfterHeld, modApplied, kicks, leaves, chatsDirected, chatsBroadcast, spoofs,
 	histJoins, histJoinsOver50, permChanges, tokenOps, refusedNonMember, disconnects, crossGroupTokenOps int
 	refusedReasons map[string]int
-	ops             []string
+	ops            []string
 }
 
 type room struct {
@@ -104,7 +104,7 @@ type room struct {
 	chatN  int
 	nextID int
 	st     roomStats
-	or     string // oracle family: "C08","C10","C11","C14","C15","C12"
+	or     string            // oracle family: "C08","C10","C11","C14","C15","C12"
 	tokens map[string]string // token -> group, tokens created through the harness
 }
 
@@ -568,9 +568,21 @@ func (r *room) doChat(sc *simClient) {
 		}
 	case 1:
 		spoof = "username"
-		m.Source = sc.id
-		m.Username = sp("somebody-else")
-		if me != nil && me.user == "somebody-else" {
+		// with the sender's own id as source, or with no source at all
+		if rapid.Bool().Draw(t, "spoofWithSource") {
+			m.Source = sc.id
+		}
+		// another member's name, or a made-up one
+		other := "somebody-else"
+		if g != nil && me != nil {
+			for _, o := range r.s.cs { // fixed order, not map order
+				if mm, ok := g.members[o.id]; ok && o.id != sc.id && mm.user != me.user {
+					other = mm.user
+				}
+			}
+		}
+		m.Username = sp(other)
+		if (me != nil && me.user == other) || (me == nil && sc.c.username == other) {
 			spoof = ""
 		}
 	case 2, 3, 4:
